@@ -287,6 +287,44 @@ def eng_cli(pid, tier, wd, known, replay=None):
                           "impl": {"exit": rc, "stderr": err[-400:]}, "oracle": why, "seed": seed()}, True))
     finally:
         shutil.rmtree(root, ignore_errors=True)
+    # a package that uses cgo (its compiled files include translated ones in the build cache); only where cgo works here
+    if pid == "C17":
+        root = scratch("cli")
+        try:
+            cg = {"p.go": "package cgo1\n\n// #include <stdlib.h>\nimport \"C\"\n\ntype A struct{ N int }\n\nfunc NewA() A { return A{N: int(C.abs(-7))} }\n",
+                  "wire.go": HDR % "cgo1" + "func InitA() A {\n\tpanic(wire.Build(NewA))\n}\n"}
+            write_ws(root, {"cgo1": cg, "ok1": PKGS["ok1"]})
+            cgoenv = dict(GOENV, CGO_ENABLED="1")
+            tl = build_tools()
+
+            def wire_cgo(args):
+                try:
+                    q = sh([tl["wire"]] + args, cwd=root, env=cgoenv, timeout=120, mem_gb=8)
+                    return q.returncode, q.stdout, q.stderr
+                except subprocess.TimeoutExpired:
+                    return 124, "", "timeout"
+            b = sh(["go", "build", "./cgo1"], cwd=root, env=cgoenv, timeout=300)
+            if b.returncode != 0:
+                stats["cgo_case"] = "skipped: cgo does not build here"
+            else:
+                before = snapshot(root)
+                rc, out, err = wire_cgo(["gen", "./cgo1", "./ok1"])
+                after = snapshot(root)
+                changed = sorted(k for k in set(before) | set(after) if before.get(k) != after.get(k))
+                rc2, _, err2 = wire_cgo(["diff", "./cgo1", "./ok1"])
+                stats["invocations"] += 2; stats["cgo_case"] = "run"
+                why = []
+                if rc != 0:
+                    why.append("gen exits %d on two packages that analyse cleanly (one of them uses cgo): %s" % (rc, err[-300:]))
+                if changed != ["cgo1/wire_gen.go", "ok1/wire_gen.go"]:
+                    why.append("gen changed %s; the contract says exactly cgo1/wire_gen.go and ok1/wire_gen.go" % changed)
+                if rc == 0 and rc2 != 0:
+                    why.append("diff right after gen exits %d" % rc2)
+                if why:
+                    viol.append(({"property": pid, "kind": "failing-input", "broken": "C17 oracle on the wire binary: cgo package", "input": {"invocation": {"cmd": "gen", "pkgs": ["cgo1", "ok1"], "files": cg}},
+                                  "impl": {"exit": rc, "changed_files": changed, "stderr": err[-400:]}, "oracle": why, "seed": seed()}, True))
+        finally:
+            shutil.rmtree(root, ignore_errors=True)
     # option handling: unreadable header file, nonexistent pattern, default-command form
     for cmd in ("gen", "diff"):
         d, why = check_case(cmd, ["ok1"], ("-header_file=HDR",), {"ok1": "stale"}, bad_header=True)
